@@ -21,6 +21,13 @@
 //	    goroutine while the dispatcher waits for a slot), IsStabilizing() may turn false only
 //	    then, and a Stabilize issued at that moment is either turned away or runs without
 //	    overlapping the cancelled pass.
+//	(e) fault scenarios in a child process: a node function panics or returns an error under
+//	    Stabilize / ParallelStabilize; every handler the library then invokes before the
+//	    outer call returns (OnError, OnAborted, update handlers, stabilization-end handlers)
+//	    reads IsStabilizing(), calls Stabilize and ParallelStabilize re-entrantly, and has
+//	    another goroutine call Stabilize while it stays parked.  The graph must still be
+//	    claimed, every such call must get ErrAlreadyStabilizing, no node function may run for
+//	    a second pass, and the stabilization number must advance by exactly one.
 //	(c) re-entrant calls from a node function, an update handler, stabilization start/end
 //	    handlers and another goroutine while a pass runs: each must return
 //	    incr.ErrAlreadyStabilizing and leave NumNodes, the recompute heap length, the
@@ -1042,6 +1049,333 @@ func cancelParent(rep *hx.Report, distinct hx.Distinct, seed uint64) {
 	}
 }
 
+// ------------------------------------------------------------------ (e) faults (child process)
+
+// A node function that panics or returns an error makes the library call user code on the
+// way out of the pass: the node's OnError handlers, the OnAborted handlers of what was
+// still queued, the stabilization-end handlers, the update handlers of the nodes that did
+// change.  All of that still belongs to the pass: until Stabilize / ParallelStabilize has
+// returned, the graph must stay claimed.  Every handler the library invokes on behalf of
+// the outer pass (a) reads IsStabilizing(), (b) calls Stabilize and ParallelStabilize
+// re-entrantly, (c) asks another goroutine to call Stabilize and stays parked on a channel
+// until that call has returned.  The facts are sampled by the handlers themselves, in line;
+// no timing is involved.
+
+type faultScenario struct {
+	Outer string `json:"outer"` // Stabilize | ParallelStabilize
+	P     int    `json:"parallelism"`
+	Fault string `json:"fault"` // panic | error
+	Clear bool   `json:"clear_recompute_heap_on_error"`
+	First bool   `json:"failing_node_queued_first"` // serial passes stop at the failure: what is still queued then depends on the order
+}
+
+type handlerVisit struct {
+	Site           string `json:"handler"`
+	Stabilizing    bool   `json:"is_stabilizing"`
+	StabNum        uint64 `json:"stabilization_num"`
+	NestedStab     string `json:"nested_stabilize,omitempty"`
+	NestedParallel string `json:"nested_parallel_stabilize,omitempty"`
+	Concurrent     string `json:"stabilize_from_another_goroutine,omitempty"`
+}
+
+type faultOutcome struct {
+	Scenario      faultScenario  `json:"scenario"`
+	Visits        []handlerVisit `json:"handler_visits"`
+	OuterErr      string         `json:"outer_returned"`
+	StabNumBefore uint64         `json:"stabilization_num_before"`
+	StabNumAfter  uint64         `json:"stabilization_num_after"`
+	ForeignRuns   map[string]int `json:"node_functions_run_for_other_passes,omitempty"`
+	Problems      []string       `json:"problems,omitempty"`
+	Notes         []string       `json:"notes,omitempty"`
+}
+
+const (
+	outerPass      = 1
+	nestedSerial   = 2
+	nestedParallel = 3
+	otherGoroutine = 4
+	recoveryPass   = 5
+)
+
+func errName(err error) string {
+	switch {
+	case err == nil:
+		return "<nil>"
+	case errors.Is(err, incr.ErrAlreadyStabilizing):
+		return "ErrAlreadyStabilizing"
+	}
+	return firstLines(err.Error(), 1)
+}
+
+func runFaultScenario(sc faultScenario, rng *hx.Rand) (out faultOutcome) {
+	out = faultOutcome{Scenario: sc, ForeignRuns: map[string]int{}}
+	var mu sync.Mutex
+	problem := func(format string, args ...any) {
+		mu.Lock()
+		out.Problems = append(out.Problems, fmt.Sprintf(format, args...))
+		mu.Unlock()
+	}
+	g := incr.New(incr.OptGraphParallelism(sc.P), incr.OptGraphClearRecomputeHeapOnError(sc.Clear))
+	eg := incr.ExpertGraph(g)
+	tr := newPassTracker()
+	var armed, outerReturned atomic.Bool
+	// the goroutine that issues a Stabilize on request while the requesting handler is parked
+	req := make(chan struct{})
+	resp := make(chan error)
+	stop := make(chan struct{})
+	defer close(stop)
+	go func() {
+		for {
+			select {
+			case <-req:
+				resp <- g.Stabilize(context.WithValue(context.Background(), passKey{}, otherGoroutine))
+			case <-stop:
+				return
+			}
+		}
+	}()
+	probed := map[string]bool{}
+	visit := func(site string, ctx context.Context) {
+		if !armed.Load() || passID(ctx) != outerPass || outerReturned.Load() {
+			return // not invoked on behalf of the outer pass while it is still running
+		}
+		v := handlerVisit{Site: site, Stabilizing: g.IsStabilizing(), StabNum: eg.StabilizationNum()}
+		mu.Lock()
+		first := !probed[site]
+		probed[site] = true
+		mu.Unlock()
+		if first {
+			v.NestedStab = errName(g.Stabilize(context.WithValue(context.Background(), passKey{}, nestedSerial)))
+			v.NestedParallel = errName(g.ParallelStabilize(context.WithValue(context.Background(), passKey{}, nestedParallel)))
+			req <- struct{}{}
+			v.Concurrent = errName(<-resp) // parked here until the other goroutine's call has returned
+		}
+		stillRunning := !outerReturned.Load()
+		mu.Lock()
+		out.Visits = append(out.Visits, v)
+		mu.Unlock()
+		if !stillRunning {
+			return
+		}
+		where := fmt.Sprintf("inside the %s that the outer %s invoked before returning", site, sc.Outer)
+		if !v.Stabilizing {
+			problem("IsStabilizing() is false %s", where)
+		}
+		for _, n := range []struct{ what, got string }{{"a re-entrant Stabilize", v.NestedStab}, {"a re-entrant ParallelStabilize", v.NestedParallel},
+			{"a Stabilize issued by another goroutine while the handler was parked", v.Concurrent}} {
+			if n.got != "" && n.got != "ErrAlreadyStabilizing" {
+				problem("%s %s returned %s, not ErrAlreadyStabilizing", n.what, where, n.got)
+			}
+		}
+	}
+	const siblings = 5
+	nodeFn := func(fail bool) func(context.Context, int) (int, error) {
+		return func(ctx context.Context, x int) (int, error) {
+			id := passID(ctx)
+			tr.enter(id)
+			defer tr.exit(id)
+			if fail && armed.Load() {
+				if sc.Fault == "panic" {
+					panic("verif: seeded node failure")
+				}
+				return 0, errors.New("verif: seeded node failure")
+			}
+			return x + 1, nil
+		}
+	}
+	vf := incr.Var(g, rng.Range(0, 1000))
+	f := incr.MapContext(g, vf, nodeFn(true))
+	f.Node().OnError(func(ctx context.Context, _ error) { visit("OnError handler of the failing node", ctx) })
+	f.Node().OnAborted(func(ctx context.Context, _ error) { visit("OnAborted handler of the failing node", ctx) })
+	of := incr.MustObserve(g, f)
+	vs := make([]incr.VarIncr[int], siblings)
+	ot := make([]incr.ObserveIncr[int], siblings)
+	for i := range vs {
+		vs[i] = incr.Var(g, rng.Range(0, 1000))
+		s := incr.MapContext(g, vs[i], nodeFn(false))
+		t := incr.MapContext(g, s, nodeFn(false))
+		vs[i].Node().OnAborted(func(ctx context.Context, _ error) { visit("OnAborted handler of a sibling", ctx) })
+		s.Node().OnAborted(func(ctx context.Context, _ error) { visit("OnAborted handler of a sibling", ctx) })
+		t.Node().OnAborted(func(ctx context.Context, _ error) { visit("OnAborted handler of a sibling", ctx) })
+		s.Node().OnUpdate(func(ctx context.Context) { visit("update handler of a sibling", ctx) })
+		ot[i] = incr.MustObserve(g, t)
+		ot[i].OnUpdate(func(ctx context.Context, _ int) { visit("update handler of a sibling's observer", ctx) })
+	}
+	g.OnStabilizationEnd(func(ctx context.Context, _ time.Time, _ error) { visit("stabilization-end handler", ctx) })
+	if err := g.Stabilize(context.WithValue(context.Background(), passKey{}, 0)); err != nil {
+		problem("initial Stabilize: %v", err)
+		return out
+	}
+	want := make([]int, siblings)
+	xf := rng.Range(1001, 1<<20)
+	if sc.First {
+		vf.Set(xf)
+	}
+	for i := range vs {
+		x := rng.Range(1001, 1<<20)
+		vs[i].Set(x)
+		want[i] = x + 2
+	}
+	if !sc.First {
+		vf.Set(xf)
+	}
+	armed.Store(true)
+	out.StabNumBefore = eg.StabilizationNum()
+	outerCtx := context.WithValue(context.Background(), passKey{}, outerPass)
+	var outerErr error
+	if sc.Outer == "ParallelStabilize" {
+		outerErr = g.ParallelStabilize(outerCtx)
+	} else {
+		outerErr = g.Stabilize(outerCtx)
+	}
+	outerReturned.Store(true)
+	out.StabNumAfter = eg.StabilizationNum()
+	out.OuterErr = errName(outerErr)
+	if g.IsStabilizing() {
+		problem("IsStabilizing() is true after the outer %s returned", sc.Outer)
+	}
+	foreign := 0
+	for id, name := range map[int]string{nestedSerial: "re-entrant Stabilize", nestedParallel: "re-entrant ParallelStabilize", otherGoroutine: "Stabilize from another goroutine"} {
+		if n := tr.startedBy(id); n > 0 {
+			out.ForeignRuns[name] = n
+			foreign += n
+		}
+	}
+	if foreign > 0 {
+		problem("%d node function(s) ran on behalf of a second pass before the outer %s had returned: %v", foreign, sc.Outer, out.ForeignRuns)
+	}
+	if d := out.StabNumAfter - out.StabNumBefore; d != 1 {
+		problem("the stabilization number went from %d to %d during one outer %s (want exactly one step)", out.StabNumBefore, out.StabNumAfter, sc.Outer)
+	}
+	if outerErr == nil {
+		out.Notes = append(out.Notes, "the outer call returned nil although a node function failed")
+	}
+	if len(out.Visits) == 0 {
+		out.Notes = append(out.Notes, "no handler was invoked by the outer pass")
+	}
+	// the failure is transient: a later pass must be able to finish the work
+	armed.Store(false)
+	if err := g.Stabilize(context.WithValue(context.Background(), passKey{}, recoveryPass)); err != nil {
+		out.Notes = append(out.Notes, "the pass after the failure returned "+errName(err))
+	} else if !sc.Clear {
+		ok := of.Value() == xf+1
+		for i := range ot {
+			ok = ok && ot[i].Value() == want[i]
+		}
+		if !ok {
+			out.Notes = append(out.Notes, "observers do not hold the expected values after the pass that followed the failure")
+		}
+	}
+	return out
+}
+
+func faultScenarios() []faultScenario {
+	var out []faultScenario
+	for _, o := range []struct {
+		outer string
+		p     int
+	}{{"Stabilize", 2}, {"ParallelStabilize", 1}, {"ParallelStabilize", 4}} {
+		for _, fault := range []string{"panic", "error"} {
+			for _, clear := range []bool{false, true} {
+				for _, first := range []bool{false, true} {
+					out = append(out, faultScenario{Outer: o.outer, P: o.p, Fault: fault, Clear: clear, First: first})
+				}
+			}
+		}
+	}
+	return out
+}
+
+func faultChild(seed uint64) {
+	rng := hx.NewRand(seed)
+	for _, sc := range faultScenarios() {
+		start, _ := json.Marshal(sc)
+		fmt.Println("FAULT-START " + string(start))
+		watchdog := time.AfterFunc(30*time.Second, func() {
+			o := faultOutcome{Scenario: sc, Problems: []string{"the scenario did not finish within 30s (a re-entrant or concurrent call inside a handler never returned?)"}}
+			data, _ := json.Marshal(o)
+			fmt.Println("FAULT " + string(data))
+			os.Exit(0)
+		})
+		o := runFaultScenario(sc, rng.Fork())
+		watchdog.Stop()
+		data, _ := json.Marshal(o)
+		fmt.Println("FAULT " + string(data))
+	}
+}
+
+func faultParent(rep *hx.Report, distinct hx.Distinct, seed uint64) {
+	cmd := exec.Command(os.Args[0], "-child", "faults", "-seed", fmt.Sprint(seed))
+	var stderr strings.Builder
+	cmd.Stderr = &stderr
+	stdout, err := cmd.StdoutPipe()
+	if err != nil {
+		fmt.Fprintln(os.Stderr, err)
+		os.Exit(2)
+	}
+	if err := cmd.Start(); err != nil {
+		fmt.Fprintln(os.Stderr, err)
+		os.Exit(2)
+	}
+	killed := false
+	timer := time.AfterFunc(5*time.Minute, func() { killed = true; _ = cmd.Process.Kill() })
+	var last string
+	sc := bufio.NewScanner(stdout)
+	sc.Buffer(make([]byte, 1<<22), 1<<22)
+	sampled := false
+	for sc.Scan() {
+		line := sc.Text()
+		switch {
+		case strings.HasPrefix(line, "FAULT-START "):
+			last = line[len("FAULT-START "):]
+		case strings.HasPrefix(line, "FAULT "):
+			var o faultOutcome
+			if json.Unmarshal([]byte(line[len("FAULT "):]), &o) != nil {
+				continue
+			}
+			rep.Evaluations++
+			name := fmt.Sprintf("%s/p=%d/%s/clear=%v/first=%v", o.Scenario.Outer, o.Scenario.P, o.Scenario.Fault, o.Scenario.Clear, o.Scenario.First)
+			rep.Count("fault-" + o.Scenario.Outer + "-" + o.Scenario.Fault)
+			for _, v := range o.Visits {
+				rep.Count("fault-handler: " + v.Site)
+				distinct.Add("fault:" + name + "/" + v.Site)
+			}
+			for _, n := range o.Notes {
+				rep.Notes = append(rep.Notes, "fault scenario "+name+": "+n)
+			}
+			if len(o.Problems) > 0 {
+				probs := o.Problems
+				if len(probs) > 6 {
+					probs = append(append([]string(nil), probs[:6]...), fmt.Sprintf("... and %d more", len(o.Problems)-6))
+				}
+				rep.AddViolation(hx.Violation{Property: "C19",
+					What: fmt.Sprintf("%s (parallelism %d) over a graph in which one node function fails (%s; clear-heap-on-error=%v; failing node queued first=%v): %s",
+						o.Scenario.Outer, o.Scenario.P, o.Scenario.Fault, o.Scenario.Clear, o.Scenario.First, strings.Join(probs, "; ")),
+					Key: "fault:" + name, Replay: map[string]any{"kind": "fault", "scenario": o.Scenario, "outcome": o}})
+			}
+			if !sampled && o.Scenario.Fault == "panic" && o.Scenario.Clear {
+				sampled = true
+				rep.Samples = append(rep.Samples, map[string]any{"fault": o})
+			}
+		}
+	}
+	werr := cmd.Wait()
+	timer.Stop()
+	if killed {
+		werr = errors.New("fault child killed after 5 minutes")
+	}
+	if werr != nil {
+		tail := stderr.String()
+		if len(tail) > 1500 {
+			tail = tail[:1500]
+		}
+		var scn any
+		_ = json.Unmarshal([]byte(last), &scn)
+		rep.AddViolation(hx.Violation{Property: "C19", What: fmt.Sprintf("process died during the fault scenario %s (%v): %s", last, werr, firstLines(tail, 3)),
+			Key: "fault:crash", Replay: map[string]any{"kind": "fault", "scenario": scn, "stderr": tail}})
+	}
+}
+
 // ------------------------------------------------------------------ (c) re-entrant calls
 
 type snapshot struct {
@@ -1253,19 +1587,25 @@ func main() {
 		cancelChild(*seed)
 		return
 	}
+	if *child == "faults" {
+		faultChild(*seed)
+		return
+	}
 	rep := hx.NewReport("statusrace", *seed)
 	rng := hx.NewRand(*seed)
 	distinct := hx.Distinct{}
 	expertReplay(rep, distinct)
 	reentrant(rep, distinct, rng.Fork())
 	cancelParent(rep, distinct, rng.Uint64())
+	faultParent(rep, distinct, rng.Uint64())
 	stressParent(rep, distinct, rng.Uint64(), *rounds, *goroutines)
 	rep.Distinct = len(distinct)
 	rep.Rule = fmt.Sprintf("expert-API replay of the model's refutation schedule + every interleaving of 2 and of 3 logical callers' "+
 		"EnsureNotStabilizing/StabilizeStart/StabilizeEnd (exhaustive: 20 + 1680); re-entrant calls for outer x inner in {Stabilize, ParallelStabilize} x %d call sites; "+
 		"%d cancellation scenarios (ParallelStabilize at parallelism 1/2/4 over a gated block of 3p+2 nodes, serial Stabilize over 200 nodes; cancelled before the call, "+
-		"by a node function, from another goroutine); %d stress rounds of %d goroutines released together. Non-trivial = a cancellation scenario in which the cancelled pass started a node function (or was cancelled mid-pass), an interleaving in which some operation runs while another caller is between its "+
-		"check and its end, a re-entrant case whose call site was reached, a stress round in which at least one call was turned away", len(sites), len(cancelScenarios()), *rounds, *goroutines)
+		"by a node function, from another goroutine); %d fault scenarios (a node function panics / returns an error under Stabilize and ParallelStabilize at parallelism 1 and 4, with and without "+
+		"clear-heap-on-error; OnError, OnAborted, update and stabilization-end handlers probe the graph from inside); %d stress rounds of %d goroutines released together. Non-trivial = a cancellation scenario in which the cancelled pass started a node function (or was cancelled mid-pass), an interleaving in which some operation runs while another caller is between its "+
+		"check and its end, a re-entrant case whose call site was reached, a stress round in which at least one call was turned away, a (fault scenario, handler) pair the library actually invoked", len(sites), len(cancelScenarios()), len(faultScenarios()), *rounds, *goroutines)
 	rep.Exhaustive = true
 	if *jsonOut != "" {
 		if err := rep.Write(*jsonOut); err != nil {
